@@ -16,7 +16,7 @@ ASSUMPTIONS = [
     "reference executor E5 implements June-2018 6.4.4 error propagation",
     "parser stand-in supplies the node spans used for the location clause (cross-checked against the printer)",
 ]
-BUDGET_S = {"quick": 150, "thorough": 3000}
+BUDGET_S = {"quick": 600, "thorough": 3000}
 
 WRAPPERS = ["T", "T!", "[T]", "[T]!", "[T!]", "[T!]!", "[[T]]", "[[T!]!]!"]  # the last two only in the thorough tier
 RAISING = ("raise", "raise_te", "return_exc")
